@@ -250,7 +250,7 @@ func (g *gen) text() int {
 }
 
 func caseVariant(g *gen, k string) string {
-	switch g.pick(12) {
+	switch g.pick(36) {
 	case 0:
 		return strings.ToUpper(k)
 	case 1:
